@@ -105,7 +105,7 @@ class Budget(Exception):
 
 
 class Interp:
-    def __init__(self, facts, unroll=16, max_disj=160, max_steps=400000):
+    def __init__(self, facts, unroll=16, max_disj=400, max_steps=2000000):
         self.facts = facts
         self.bodies = facts.bodies
         self.adts = facts.adts
@@ -131,6 +131,7 @@ class Interp:
         self.model_preds = []
         self.models_used = {}
         self.const_cache = {}
+        self.return_partition = {}   # fn id -> callable(interp, st, retval) -> hashable key; results with equal keys are joined
         from . import models
         models.install(self)
 
@@ -841,9 +842,13 @@ class Interp:
         out.trace = s1.trace
         out.loops = {k: max(s1.loops.get(k, 0), s2.loops.get(k, 0)) for k in set(s1.loops) | set(s2.loops)}
         out.notes = s1.notes
+        out.lin = tuple(f for f in s1.lin if any(f[0] == g[0] and f[1:] == g[1:] for g in s2.lin))
         # intervals of shared vids: hull
-        for v in set(s1.iv) | set(s2.iv):
-            i1, i2 = D.get_iv(s1, v), D.get_iv(s2, v)
+        iv2 = s2.iv
+        for v, i1 in s1.iv.items():
+            i2 = iv2.get(v)
+            if i2 is None:
+                continue   # unknown on one side: falls back to the global range / defining term (sound)
             lo, hi = min(i1[0], i2[0]), max(i1[1], i2[1])
             if widen and (lo, hi) != i1:
                 g = D.GRANGE.get(v, (-INF, INF))
@@ -1054,6 +1059,19 @@ class Interp:
                 v = self._relocate(s, fid, v, {})
                 del s.frames[fid]
             out.append((s, v))
+        part = self.return_partition.get(fn)
+        if part is not None and len(out) > 1:
+            groups = {}
+            for s, v in out:
+                groups.setdefault(part(self, s, v), []).append((s, v))
+            out = []
+            for items in groups.values():
+                s, v = items[0]
+                for s2, v2 in items[1:]:
+                    j = self.join_states(s, s2)
+                    v = self.join_val(j, s, s2, v, v2)
+                    s = j
+                out.append((s, v))
         if len(out) > self.max_disj:
             out = self.merge_results(out, self.max_disj)
         return out
@@ -1538,9 +1556,14 @@ class Interp:
         self.cur_entry = label or fn
         st = St()
         st.frames[0] = {}
-        args = build_args(self, st)
+        cfgs = build_args(self, st)
+        if cfgs and not (isinstance(cfgs[0], tuple) and len(cfgs[0]) == 2 and isinstance(cfgs[0][0], St)):
+            cfgs = [(st, cfgs)]
         self.stack = []
-        return self.call_body(st, fn, args, ('entry', fn))
+        outs = []
+        for s, args in cfgs:
+            outs.extend(self.call_body(s, fn, args, ('entry', fn)))
+        return outs
 
     def describe(self, st, v, depth=0):
         if v is None:
